@@ -190,6 +190,32 @@ CLAIMED = {
          "build_module_stubs_from_traces is order-dependent when two generated TypedDict classes collide by name (C11 finding); through the CLI the "
          "store returns rows GROUP BY-sorted, which masks it"),
    technique="Lean 4 proof (membership characterisations under permutation) + cross-process differential runs of the real CLI"),
+ "C15": dict(
+   text=("`apply` is libcst's ApplyTypeAnnotationsVisitor driven by MonkeyType; what is MonkeyType's own has Lean 4 theorems: the import remover "
+         "that runs under --pep_563 is the identity on every non-import statement and keeps block structure at any nesting depth "
+         "(non_imports_untouched, block_structure_kept), it is idempotent on the source (remove_idempotent_on_source, via C16.source_imports_stay), "
+         "and with overwriting off the stub fed to libcst has no annotation for an annotated position (C13.omit_blank). The property as a whole "
+         "is decided on generated modules: result parses; AST with annotations / added imports / added TYPE_CHECKING blocks / generated TypedDict "
+         "classes erased (path-aware eraser) equals the original's; existing annotations unchanged unless overwriting; every stub annotation "
+         "for an unannotated position present; a second application changes nothing."),
+   ref="DESIGN.md section 4 C15",
+   note=("partial: the weakest proof-level claim - libcst's visitors are outside the model, so the theorems cover only MonkeyType's glue and the "
+         "rest is an exploration over generated sources x overwrite x k x confinement. One open finding (overwrite + confinement re-apply adds "
+         "runtime imports); two defects fixed (920659e, 69d2652)"),
+   technique="Lean 4 proof over a model of MonkeyType's import remover / annotation strategy + AST eraser-and-diff of the real apply on generated modules"),
+ "C16": dict(
+   text=("Lean 4 theorems over a model of get_newly_imported_items / the movable filter / RemoveImportsTransformer on statement trees of any "
+         "shape: no import item the source has is ever moved (new_items_disjoint), names covered by a source star import are not moved "
+         "(star_covered_not_moved), typing names and mypy_extensions.TypedDict stay at run time (typing_not_moved, typeddict_base_not_moved), "
+         "every other new stub import is moved (new_items_all_moved), and removing the moved items leaves every source statement - top level, "
+         "function body, existing TYPE_CHECKING block, aliased or not - exactly as it is (source_imports_stay, by mutual structural induction). "
+         "The model is tied to /repo by comparing the set of items the real transformer placed in the new TYPE_CHECKING block with the model's "
+         "`movable (newlyImported stub src stars)` for every generated case; the result is also parsed, checked for the __future__ import first, "
+         "import placement, and executed (module imported and workload re-run, output compared with the original's)."),
+   ref="DESIGN.md section 4 C16",
+   note=("libcst's placement of added imports and `behaves as before` are observed, not proved; MonkeyType's selection/removal logic is proved. "
+         "Five defects fixed (d5d95fa, 677399a, 71224ef, 920659e, 69d2652)"),
+   technique="Lean 4 proof (mutual structural induction over statement trees) + differential correspondence on the moved-import set + execution of the result"),
 }
 
 NOT_YET = "check not built yet (build in progress; see DESIGN.md section 10)"
